@@ -68,46 +68,37 @@ Section Allgather.
   Definition allgather (P : Z) (b : Z -> A) : state := ag (S (Z.to_nat P)) P 0 (init b).
 End Allgather.
 
-(* ---- per-rank program (co-simulated against the trace of the real code) ---------------------- *)
+(* ---- per-rank program (co-simulated against the trace of the real code; semantics in MPI/Sem.v) ----------
+   Each exchange step is one communication window built from the SAME message lists as the global model;
+   tags are the model's tag ids 0..3 (the driver maps them to the generated SC_TAG_AG_* values). *)
 From ScV Require Import MPI.Prog.
 
 Section AllgatherProg.
   Variable amax : Z.
-  Variable tag_a2a tag_a tag_b tag_c : Z.     (* numeric values of the SC_TAG_AG_* enumerators (generated) *)
   Variable sz : nat.                          (* block size in bytes *)
 
-  (* all-to-all: for j = 0 .. g-1, j <> myoffset: post receive of slot j from peer j, post send of the own slot *)
-  Fixpoint a2a_prog (js : list Z) (base me : Z) (buf : buffer) (k : buffer -> prog) : prog :=
-    match js with
-    | [] => k buf
-    | j :: rest =>
-      if base + j =? me then a2a_prog rest base me buf k
-      else recv (base + j) tag_a2a (fun m =>
-           send (base + j) tag_a2a (buf me) (a2a_prog rest base me (upd buf (base + j) (firstn sz m)) k))
+  Definition send_of (buf : buffer) (m : msg) : Z * Z * payload := (peer m, mtag m, slots buf (lo m) (Z.to_nat (cnt m))).
+  Definition recv_of (m : msg) : Z * Z := (peer m, mtag m).
+  Fixpoint store_all (buf : buffer) (ms : list msg) (ps : list payload) : buffer :=
+    match ms, ps with
+    | m :: ms', p :: ps' => store_all (store buf (lo m) (Z.to_nat (cnt m)) sz p) ms' ps'
+    | _, _ => buf
     end.
+
+  Definition window (sl rl : list msg) (buf : buffer) (k : buffer -> prog) : prog :=
+    phase (map (send_of buf) sl) (map recv_of rl) (fun ps => k (store_all buf rl ps)).
 
   Fixpoint ag_prog (fuel : nat) (g base me : Z) (buf : buffer) (k : buffer -> prog) : prog :=
     match fuel with
     | O => k buf
     | S f =>
       if amax <? g then
-        let g2 := g / 2 in let g2B := g - g2 in let o := me - base in
-        if o <? g2 then
-          ag_prog f g2 base me buf (fun buf1 =>
-            recv (me + g2) tag_b (fun m =>
-            send (me + g2) tag_a (slots buf1 base (Z.to_nat g2))
-              (let buf2 := store buf1 (base + g2) (Z.to_nat g2B) sz m in
-               if (o =? g2 - 1) && negb (g2 =? g2B)
-               then send (me + g2B) tag_c (slots buf1 base (Z.to_nat g2)) (k buf2)
-               else k buf2)))
+        let g2 := g / 2 in let g2B := g - g2 in
+        if me - base <? g2 then
+          ag_prog f g2 base me buf (fun buf1 => window (sends_level g base me) (recvs_level g base me) buf1 k)
         else
-          ag_prog f g2B (base + g2) me buf (fun buf1 =>
-            if (o =? g - 1) && negb (g2 =? g2B)
-            then recv (me - g2B) tag_c (fun m => k (store buf1 base (Z.to_nat g2) sz m))
-            else recv (me - g2) tag_a (fun m =>
-                 send (me - g2) tag_b (slots buf1 (base + g2) (Z.to_nat g2B))
-                   (k (store buf1 base (Z.to_nat g2) sz m))))
-      else a2a_prog (map Z.of_nat (seq 0 (Z.to_nat g))) base me buf k
+          ag_prog f g2B (base + g2) me buf (fun buf1 => window (sends_level g base me) (recvs_level g base me) buf1 k)
+      else window (sends_a2a g base me) (recvs_a2a g base me) buf k
     end.
 
   Definition allgather_prog (P me : Z) (mine : payload) : prog :=
